@@ -131,7 +131,7 @@ def icao(msg: str) -> Optional[str]:
     DF = df(msg)
 
     if DF in (11, 17, 18):
-        addr = msg[2:8]
+        addr = msg[2:8].upper()
     elif DF in (0, 4, 5, 16, 20, 21):
         c0 = crc(msg, encode=True)
         c1 = int(msg[-6:], 16)
